@@ -639,6 +639,25 @@ fn with_shared_buf(writer: &BufferWriter, with_buf: impl FnOnce(&BufferWriter, &
     });
 }
 
+/**
+Test-only instrumentation for the verification harness.
+
+This module only exists when the crate is compiled with `--cfg emit_rs_emit_verif`.
+*/
+#[cfg(emit_rs_emit_verif)]
+pub mod verif {
+    /**
+    Format an event exactly as the terminal emitters do, without colors, and return the bytes that would be printed.
+    */
+    pub fn write_event_no_color(evt: emit::event::Event<impl emit::props::Props>) -> Vec<u8> {
+        let mut buf = termcolor::Buffer::no_color();
+
+        super::write_event(&mut buf, evt);
+
+        buf.into_inner()
+    }
+}
+
 #[cfg(test)]
 mod tests {
     use super::*;
